@@ -998,14 +998,22 @@ type setBuilder[V any] struct {
 }
 
 func (r *setBuilder[V]) Add(v V) *setBuilder[V] {
+	assert(r.m != nil, "immutable.SetBuilder: builder invalid after Build() invocation")
 	r.m.set(v, true, true)
 	return r
 }
 
+// Build returns the underlying set. Only call once.
+// Like the map builder, the builder is invalid after the call: it mutates the nodes
+// it owns in place, so it must not keep a reference to the trie it has handed out.
 func (r *setBuilder[V]) Build() fp.Set[V] {
+	assert(r.m != nil, "immutable.SetBuilder.Build(): duplicate call to fetch set")
+	m := r.m
+	r.m = nil
+	hasher := m.hasher
 	return fp.MakeSet[V](func() fp.SetMinimal[V] {
-		return SetMinimal(r.m.hasher)
-	}, set[V]{r.m})
+		return SetMinimal(hasher)
+	}, set[V]{m})
 }
 
 func SetBuilder[V any](hasher fp.Hashable[V]) *setBuilder[V] {
